@@ -205,6 +205,17 @@ def check(case, ctx):
     cons, cinfos = [], []
     for k, c in enumerate(case["cons"]):
         cgrid, ccfg = grid_of(c["grid"])
+        if case.get("prehistory") and ccfg is not None and pgrid is not None and pcfg is not None:
+            # the consumer's grid object has a history: it was created for the other data location, compared with the
+            # producer's grid (as an earlier coupling would have done), and then switched to the location it has in
+            # this case through the documented setter. What connect decides may depend on what the grids are now only.
+            flipped = "POINTS" if c["grid"][1] == "CELLS" else "CELLS"
+            cgrid, _cfg0 = grid_of([c["grid"][0], flipped] + list(c["grid"][2:]))
+            pgrid.compatible_with(cgrid)
+            cgrid.compatible_with(pgrid)
+            _eq = (pgrid == cgrid, cgrid == pgrid)
+            cgrid.data_location = c["grid"][1]
+            ctx.event("consumer-grid-object-with-history")
         cm = c["mask"]
         if cm not in ("FLEX", "NONE") and ccfg is None:
             cm = "FLEX"
@@ -463,7 +474,8 @@ def case_st(draw):
         cons.append({"time": draw(st.integers(0, 9)) < 7, "grid": cg, "units": cu, "mask": cm,
                      "foo": draw(st.sampled_from(["absent", "absent", "bar", "baz", "unset"])),
                      "late": draw(st.sampled_from([0, 0, 1, 2]))})  # n = info handed over in the n-th _connect call
-    return {"prod": prod, "cons": cons, "adapter": ada, "order": draw(st.lists(st.integers(0, 3), min_size=4, max_size=4))}
+    return {"prod": prod, "cons": cons, "adapter": ada, "order": draw(st.lists(st.integers(0, 3), min_size=4, max_size=4)),
+            "prehistory": draw(st.integers(0, 3)) == 0}
 
 
 def parts():
